@@ -73,14 +73,15 @@ type State struct {
 	GoDirective    string // go.mod
 	Conf           map[string]Conf
 	// invocation
-	FlagGo  string // "" = default (module)
-	Tags    string
-	Tests   bool
-	Checks  string // "" = flag absent
-	GOOS    string // "" = host
-	Godebug string // extra GODEBUG token, "" = none
-	QF      bool   // -debug.run-quickfix-analyzers
-	Binary  int    // index into the list of binaries
+	FlagGo   string // "" = default (module)
+	Tags     string
+	Tests    bool
+	Checks   string            // "" = flag absent
+	GOOS     string            // "" = host
+	Godebug  string            // extra GODEBUG token, "" = none
+	QF       bool              // -debug.run-quickfix-analyzers
+	Binary   int               // index into the list of binaries
+	ExtraEnv map[string]string // further environment variables (directed flips of unkeyed os.Getenv reads)
 	// touches: file -> counter; a change means "set mtime to a new value, content unchanged"
 	Touch map[string]int
 }
@@ -94,6 +95,10 @@ func (s State) clone() State {
 	c.Touch = map[string]int{}
 	for k, v := range s.Touch {
 		c.Touch[k] = v
+	}
+	c.ExtraEnv = map[string]string{}
+	for k, v := range s.ExtraEnv {
+		c.ExtraEnv[k] = v
 	}
 	return c
 }
@@ -264,6 +269,14 @@ func (s State) envv(cache string, extra []string) []string {
 	if s.GOOS != "" {
 		env = append(env, "GOOS="+s.GOOS)
 	}
+	var ks []string
+	for k := range s.ExtraEnv {
+		ks = append(ks, k)
+	}
+	sort.Strings(ks)
+	for _, k := range ks {
+		env = append(env, k+"="+s.ExtraEnv[k])
+	}
 	return append(env, extra...)
 }
 
@@ -409,6 +422,9 @@ func dimsOf(hdir string, s State, pkg string) map[string]string {
 	d["Godebug"] = s.Godebug
 	d["Analyzers"] = fmt.Sprint(s.QF)
 	d["Binary"] = fmt.Sprint(s.Binary % len(binaries))
+	for k, v := range s.ExtraEnv {
+		d["Env:"+k] = v
+	}
 	// the merged configuration, through the real config package
 	cfg, err := config.Load(filepath.Join(hdir, "m", pkg))
 	if err != nil {
@@ -480,6 +496,7 @@ type Step struct {
 	Compared bool // false for the first run of a history on its own fresh cache
 	Keys     []KeyObs
 	Files    map[string]string `json:",omitempty"` // only filled when warm != cold (for the replay)
+	ColdFrom string            `json:",omitempty"`
 	WarmSecs float64
 	ColdSecs float64
 }
@@ -510,7 +527,12 @@ func newHistory(work string, id int, kind string, s State) *history {
 	return &history{id: id, kind: kind, hdir: hdir, cache: filepath.Join(hdir, "cache"), cur: s}
 }
 
-func (h *history) step(edit string, compare bool) {
+// step runs the current state warm (and cold when compare is set). When against is given (a step of this
+// history that ran the SAME state on a then-empty cache, i.e. a cold run) it is used as the cold side instead
+// of running the binary once more.
+func (h *history) step(edit string, compare bool) { h.stepAgainst(edit, compare, nil) }
+
+func (h *history) stepAgainst(edit string, compare bool, against *Step) {
 	materialise(h.hdir, h.cur, h.prev)
 	dir := filepath.Join(h.hdir, "m")
 	t0 := time.Now()
@@ -520,11 +542,16 @@ func (h *history) step(edit string, compare bool) {
 		Warm: warm.Lines, WarmRC: warm.RC, WarmErr: plainStderr(warm.Stderr), Compared: compare, WarmSecs: t1.Sub(t0).Seconds()}
 	st.Keys = observeKeys(h.hdir, h.cur, warm.Stderr)
 	if compare {
-		cold := filepath.Join(h.hdir, fmt.Sprintf("cold%d", h.n))
-		c := runSC(dir, h.cur, cold, nil)
-		st.ColdSecs = time.Since(t1).Seconds()
-		os.RemoveAll(cold)
-		st.Cold, st.ColdRC, st.ColdErr = c.Lines, c.RC, plainStderr(c.Stderr)
+		if against != nil {
+			st.Cold, st.ColdRC, st.ColdErr = against.Warm, against.WarmRC, against.WarmErr
+			st.ColdFrom = fmt.Sprintf("step %d (same state, first run on the then-empty cache)", against.Index)
+		} else {
+			cold := filepath.Join(h.hdir, fmt.Sprintf("cold%d", h.n))
+			c := runSC(dir, h.cur, cold, nil)
+			st.ColdSecs = time.Since(t1).Seconds()
+			os.RemoveAll(cold)
+			st.Cold, st.ColdRC, st.ColdErr = c.Lines, c.RC, plainStderr(c.Stderr)
+		}
 		if strings.Join(st.Warm, "\n") != strings.Join(st.Cold, "\n") || st.WarmRC != st.ColdRC {
 			st.Files = map[string]string{}
 			for _, f := range h.cur.files() {
@@ -545,7 +572,7 @@ func (h *history) step(edit string, compare bool) {
 }
 
 func baseState() State {
-	return State{LeafDeprecated: true, LeafTypedNil: true, LeafPure: true, GoDirective: "1.22", Conf: map[string]Conf{}, Touch: map[string]int{}}
+	return State{LeafDeprecated: true, LeafTypedNil: true, LeafPure: true, GoDirective: "1.22", Conf: map[string]Conf{}, Touch: map[string]int{}, ExtraEnv: map[string]string{}}
 }
 
 // directed flippers: name -> (setup of the base state, flip)
@@ -554,6 +581,8 @@ type flipper struct {
 	setup func(*State)
 	flip  func(*State)
 }
+
+var envFlips []string
 
 func flippers(thorough bool) []flipper {
 	fl := []flipper{
@@ -580,6 +609,10 @@ func flippers(thorough bool) []flipper {
 		{"Godebug", nil, func(s *State) { s.Godebug = "verifdim=1" }},
 		{"Analyzers", func(s *State) { s.Checks = "all" }, func(s *State) { s.QF = true }},
 		{"Touch", nil, func(s *State) { s.Touch["target/target.go"]++; s.Touch["leaf/leaf.go"]++; s.Touch["go.mod"]++ }},
+	}
+	for _, v := range envFlips {
+		v := v
+		fl = append(fl, flipper{"Env:" + v, func(s *State) { s.ExtraEnv[v] = "a"; s.Checks = "all" }, func(s *State) { s.ExtraEnv[v] = "b" }})
 	}
 	if thorough {
 		fl = append(fl, flipper{"Cfg:HTTPStatusCodeWhitelist:visible", func(s *State) { s.HTTP = true; s.Tags = "httpx"; s.Checks = "ST1013" },
@@ -643,7 +676,7 @@ func randomEdit(r *hx.Rand, h *history, thorough bool) string {
 			s.Tags = []string{"", "extra", "other", "extra,other"}[r.Intn(4)]
 			return "-tags " + s.Tags
 		case 8:
-			if !thorough && !r.Chance(40) {
+			if !thorough && !r.Chance(25) {
 				continue // test variants pull in the testing closure: keep them rarer in the quick tier
 			}
 			s.Tests = !s.Tests
@@ -749,7 +782,13 @@ func main() {
 	thorough := flag.Bool("thorough", false, "thorough tier alphabet (net/http file, second binary)")
 	only := flag.String("only", "", "comma separated directed dimensions to run (default: all)")
 	probe := flag.Bool("envprobe", true, "run the SA9007 environment probe")
+	envflip := flag.String("envflip", "", "comma separated environment variables to flip in directed histories")
 	flag.Parse()
+	for _, v := range strings.Split(*envflip, ",") {
+		if v != "" {
+			envFlips = append(envFlips, v)
+		}
+	}
 	binaries = strings.Split(*bins, ",")
 	// toolchain of the repository the binaries were built from
 	for _, kv := range hx.GoEnv() {
@@ -788,7 +827,8 @@ func main() {
 			t := h.cur.Touch
 			h.cur = base.clone()
 			h.cur.Touch = t
-			h.step("flip "+f.dim+" back", true)
+			first := h.steps[0]
+			h.stepAgainst("flip "+f.dim+" back", true, &first)
 		})
 	}
 	for i := 0; i < *nhist; i++ {
